@@ -4,7 +4,7 @@ from ..fdai import EnumV, AggV, K, SymV, RefV, Cell, Loc, TOP, load, snapshot
 from . import dispatch as D, contrib as CB, lexer as LX, convert as CV
 
 LEVEL = "other"
-TECHNIQUE = 'FDAI dispatch table of Tokenizer::next over (class of first byte, class of second byte or end, lexer state) compared with the IEEE 488.2 section 7 dispatch rules (result, bytes consumed, state afterwards); the lexer states are not named by field: they are explored from the constructors of the library along the transitions of the lexer itself, each paired with the section 7 state of its history (product exploration); whole-element tables: Tokenizer::next folded, with every tokenizer function analysed in place, on representative complete elements of every kind (mnemonics, character data, decimal numbers with suffixes, strings, expressions, definite/indefinite blocks, non-decimal numbers, the data separator followed by each kind) and compared with a reference lexer written from 488.2 section 7 - token kind, payload bytes and bytes consumed; the 12-character limits and the separator-after-datum rule are named rows of those tables; non-ASCII rejection sites; block-length dataflow; radix table; thorough tier: every text over a small alphabet of the distinguished bytes up to a length bound (about 9200 inputs)'
+TECHNIQUE = 'FDAI dispatch table of Tokenizer::next over (class of first byte, class of second byte or end, lexer state) compared with the IEEE 488.2 section 7 dispatch rules (result, bytes consumed, state afterwards); the lexer states are not named by field: they are explored from the constructors of the library along the transitions of the lexer itself, each paired with the section 7 state of its history (product exploration); whole-element tables: Tokenizer::next folded, with every tokenizer function analysed in place, on representative complete elements of every kind (mnemonics, character data, decimal numbers with suffixes, strings, expressions, definite/indefinite blocks, non-decimal numbers, the data separator followed by each kind) and compared with a reference lexer written from 488.2 section 7 - token kind, payload bytes and bytes consumed; the 12-character limits and the separator-after-datum rule are named rows of those tables; non-ASCII rejection sites; block-length dataflow; radix table; thorough tier: every text over a small alphabet of the distinguished bytes up to a length bound (about 9200 inputs); whole-message tables (sa/rules/msgtable.py): Tokenizer::new and next() to the end folded end to end on concrete messages, compared with the element sequence the message was rendered from - about 690 complete well-formed messages (every data kind, separators with and without white space, white space in front of the first header)'
 LEVEL_TEXT = 'The per-element dispatch of the lexer is a finite function of the byte classes it distinguishes and its bookkeeping state; it is enumerated completely over every bookkeeping state reachable from the constructors (about 3700 rows) and compared row by row with the section 7 rules the statement names (`:` only inside a non-common header before a letter, `?` only in a header before white space/`;`/end, `,` only right after a data element, NL only as last byte, data only outside the header, ...). Element boundaries, payloads, the length limits and the separator-after-datum rule are decided by folding the lexer on representative elements and comparing with the reference lexer.'
 LEVEL_NOTE = "Not decided: elements beyond the enumerated representatives (uniformity of the readers' per-byte loops); the numeric value of decimal data (C07/C08). Trusted: rustc MIR, FDAI byte-cursor models, lexical-core's integer parsers by contract."
 
